@@ -32,7 +32,7 @@ impl Default for ValCfg {
 pub fn leaf_tys() -> Vec<Ty> {
     use Ty::*;
     vec![
-        U8, I8, U16, I16, U32, I32, U64, I64, U128, I128, F32, F64, Bool, Unit, Char, Str, Duration, Bytes, Phantom, Uuid, Weekday, Month, FixedOffset, Tz, NaiveDate, NaiveTime,
+        U8, I8, U16, I16, U32, I32, U64, I64, U128, I128, F32, F64, Bool, Unit, Char, Str, Duration, Bytes, Phantom, VarU32, Uuid, Weekday, Month, FixedOffset, Tz, NaiveDate, NaiveTime,
         NaiveDateTime, DtUtc, DtLocal, DtFixed, DtTz, BigInt, BigDecimal,
     ]
 }
@@ -134,6 +134,7 @@ pub fn int_range(ty: &Ty) -> Option<(i128, i128)> {
         U64 => (0, u64::MAX as i128),
         I64 => (i64::MIN as i128, i64::MAX as i128),
         I128 => (i128::MIN, i128::MAX),
+        VarU32 => (0, u32::MAX as i128),
         _ => return None,
     })
 }
